@@ -75,6 +75,28 @@ MUTATIONS = [
      "what": "CONTROL (must NOT be reported): _ensure_set written with an if statement and a renamed local",
      "old": "    rv = {vertices} if isinstance(vertices, Variable) else set(vertices)\n    if any(isinstance(v, Intervention) for v in rv):\n        raise TypeError(\"can not use interventions here\")\n    return rv",
      "new": "    if isinstance(vertices, Variable):\n        result = {vertices}\n    else:\n        result = set(vertices)\n    if any(isinstance(v, Intervention) for v in result):\n        raise TypeError(\"can not use interventions here\")\n    return result"},
+    # ---------------------------------------------------------------- are_d_separated / DSeparationJudgement (C04)
+    {"id": "m04_validate_then_normalise", "props": ["C04"], "file": CI,
+     "what": "seeded/C04b: conditions = set(conditions) moved after the validation that iterates over it",
+     "old": "        conditions = set()\n    conditions = set(conditions)\n    if not isinstance(a, Variable):",
+     "new": "        conditions = set()\n    if not isinstance(a, Variable):"
+     },
+    {"id": "m04_default_none_removed", "props": ["C04"], "file": CI,
+     "what": "the None default is no longer replaced by an empty set (callers that omit conditions or pass None)",
+     "old": "    if conditions is None:\n        conditions = set()\n    conditions = set(conditions)\n    if not isinstance(a, Variable):",
+     "new": "    conditions = set(conditions)\n    if not isinstance(a, Variable):"},
+    {"id": "m04_keyword_renamed", "props": ["C04"], "file": CI,
+     "what": "parameters a, b renamed to left, right: callers that pass them by keyword break",
+     "old": "    a: Variable,\n    b: Variable,\n    *,\n    conditions: Iterable[Variable] | None = None,\n) -> DSeparationJudgement:",
+     "new": "    left: Variable,\n    right: Variable,\n    *,\n    conditions: Iterable[Variable] | None = None,\n) -> DSeparationJudgement:\n    a, b = left, right\n    return _are_d_separated(graph, a, b, conditions=conditions)\n\n\ndef _are_d_separated(\n    graph: NxMixedGraph,\n    a: Variable,\n    b: Variable,\n    *,\n    conditions: Iterable[Variable] | None = None,\n) -> DSeparationJudgement:"},
+    {"id": "m04_create_len", "props": ["C04"], "file": "src/y0/struct.py",
+     "what": "DSeparationJudgement.create short-cuts an empty conditioning set with len(): one-shot iterables have no len()",
+     "old": "        conditions = tuple(sorted(set(conditions), key=str))\n        return cls(separated, left, right, conditions)",
+     "new": "        conditions = tuple(sorted(set(conditions), key=str)) if len(conditions) else ()\n        return cls(separated, left, right, conditions)"},
+    {"id": "m04_create_sorts_the_argument", "props": ["C04"], "file": "src/y0/struct.py",
+     "what": "DSeparationJudgement.create checks for emptiness by iterating once, then sorts: a one-shot iterable loses its first element",
+     "old": "        conditions = tuple(sorted(set(conditions), key=str))\n        return cls(separated, left, right, conditions)",
+     "new": "        if not any(True for _ in conditions):\n            return cls(separated, left, right, ())\n        conditions = tuple(sorted(set(conditions), key=str))\n        return cls(separated, left, right, conditions)"},
 ]
 
 
